@@ -137,6 +137,28 @@ def replay(rp):
 def replay_raw(r):
     """Re-execute recorded executor commands and show the events."""
     from wsx import Wsx, ExecutorDied
+    from wsx import WSX, WSX_RUG
+    if r.get("engine") == "wsx2":
+        rc = 0
+        a, b = Wsx(WSX), Wsx(WSX_RUG)
+        try:
+            for c in r["commands"]:
+                a.send_lines([c])
+                b.send_lines([c])
+                ea, eb = a.read_event(c), b.read_event(c)
+                fa = {k: v for k, v in ea.f.items() if k != "msg"}
+                fb = {k: v for k, v in eb.f.items() if k != "msg"}
+                same = ea.status == eb.status and fa == fb and ea.rng == eb.rng
+                print(c.replace("\t", " ")[:160], "->", "same" if same else "DIFFERENT: num-bigint %s %s | rug %s %s" % (ea.status, ea.f, eb.status, eb.f))
+                if not same:
+                    rc = 1
+        except ExecutorDied as e:
+            print("executor died rc=%s" % e.rc)
+            rc = 1
+        finally:
+            a.close()
+            b.close()
+        return rc
     w = Wsx()
     rc = 0
     try:
